@@ -226,6 +226,9 @@ namespace OP2Utility::Archive
 		const WaveFormatEx& waveFormat)
 	{
 		// ClmFile cannot contain more than 32 bit size internal file count.
+		if (names.size() > UINT32_MAX) {
+			throw std::runtime_error("Too many files to pack into archive " + archiveFilename);
+		}
 		ClmHeader header = ClmHeader::MakeHeader(waveFormat, static_cast<uint32_t>(names.size()));
 
 		Stream::FileWriter clmFileWriter(archiveFilename);
